@@ -32,7 +32,7 @@ REAL_VS_STUB = {"real": ["solvers.greedy / largest_coalition / random", "run.gre
 ASSUMPTIONS = ["rewards used by the oracle are recomputed on fresh objects (bit-identical to the environment's by C08)",
                "randomised expected-greedy may pick any coalition within its documented 1e-6 of the minimum",
                "expected-greedy is called with a step limit not exceeding the number of explorable coalitions"]
-PROBES = ["initial_knowledge_beyond_minimal", "state_with_ties", "state_best_differs_from_worst", "greedy_checked", "greedy_worst_checked",
+PROBES = ["solver_reused_on_second_environment", "initial_knowledge_beyond_minimal", "state_with_ties", "state_best_differs_from_worst", "greedy_checked", "greedy_worst_checked",
           "largest_checked", "random_checked", "expected_greedy", "expected_greedy_randomised",
           "state_after_unstep", "several_sampled_games"]
 TIERS = {
@@ -69,19 +69,31 @@ def run_state_rule(sim: Sim) -> None:
     budget = None if not sim.flip(1, 4, "budget?") else 2 + sim.choose(6, "budget")
     prelude.warm_process(sim)
     with sim.guard("C13.construction_raised"):
+        inst = ModelInstance(number_of_players=n, seed=sim.choose(1000, "solver-seed"), unique_name="sim")
+        solvers = {name: SOLVERS[name](inst) for name in sorted(SOLVERS)}
+    all_expl = games.explorable_ids(n)
+    n_extra = sim.choose(min(5, len(all_expl) - 1), "initially-known-extras") if sim.flip(1, 3, "extras?") else 0
+    n_envs = 1 + sim.choose(2, "environments-served-by-the-same-solvers")
+    ctx = {"n": n, "class": cls, "computer": comp_name, "gap": gap_name, "part": "state_rule"}
+    sim.config.update(ctx)
+    for e_idx in range(n_envs):
+        # one solver object serves several environments (same n, equally many initially known coalitions)
+        extras = sorted(sim.shuffled(all_expl, "which-extras")[:n_extra])
+        if e_idx:
+            sim.probe("solver_reused_on_second_environment")
+        _state_session(sim, solvers, n, cls, comp_name, gap, budget, extras, {**ctx, "environment": e_idx})
+
+
+def _state_session(sim: Sim, solvers, n, cls, comp_name, gap, budget, extras, ctx) -> None:
+    with sim.guard("C13.construction_raised"):
         if sim.flip(1, 3, "registry"):
             source = em.RegistrySource(sim.pick(KEYS[cls], "key"), n, sim.choose(2 ** 32, "seed"))
         else:
             source = em.ListSource([games.draw_game(sim, n, cls)[0] for _ in range(1 + sim.choose(3, "n-games"))], n)
-        all_expl = games.explorable_ids(n)
-        extras = sim.subset(all_expl, "initially-known-extras", 1, 8) if sim.flip(1, 3, "extras?") else []
-        if len(extras) >= len(all_expl) - 1:
-            extras = []
         env = em.make_env(n, comp_name, source, gap, budget, initial_extra=extras)
-        inst = ModelInstance(number_of_players=n, seed=sim.choose(1000, "solver-seed"), unique_name="sim")
-        solvers = {name: SOLVERS[name](inst) for name in sorted(SOLVERS)}
-    ctx = {"n": n, "class": cls, "computer": comp_name, "gap": gap_name, "part": "state_rule"}
-    sim.config.update(ctx)
+        if sim.flip(1, 2, "after-reset-protocol"):
+            for solver in solvers.values():
+                solver.after_reset(env)
     explorable = [e for e in games.explorable_ids(n) if e not in extras]
     if extras:
         sim.probe("initial_knowledge_beyond_minimal")
